@@ -170,6 +170,9 @@ RefObj(d) == ParseInOrder(d, NewObj(d), 1)
 Sites == {"declared_deps", "build_deps", "source_groups", "tool_groups", "output_names", "outputs", "provides",
           "entry_points", "env", "cmds", "env_expand"}
 CodeSorted == Sites \ {"env_expand"}                \* the sites at which the pinned code sorts
+\* ("build_deps", the sort in BuildDependencies, is modelled but cannot be made visible through map order here: labels whose
+\* insertion order varies come from dict-typed srcs / tools, and IterInputs skips exactly those - source-only and tool
+\* dependencies - or deduplicates them against the sources already yielded; the cfgs therefore do not drop it)
 SortedNow == CodeSorted \ {drop}
 \* All operators below take S, the set of sites that sort.
 \* the orders in which a map's keys may be visited at a site
@@ -241,7 +244,11 @@ Obs(S, o, d) == [rule |-> RuleSers(S, o, d), source |-> SourceSers(S, o), output
 RefObs == ref.obs                                    \* computed with every site sorted: every component a singleton
 Components == {"rule", "source", "output", "u1", "u2"}
 \* C07: every observation the model allows, whatever the parser's and the hasher's map orders, is the reference one
-Differing == LET now == Obs(SortedNow, obj, decl) IN {c \in Components : now[c] # RefObs[c]}
+\* (when a sort is dropped the question is whether the observation still is a function of the declaration: the
+\* comparison is then with the declaration-order parse under the same sorts, and a set of several values differs)
+Differing == LET now == Obs(SortedNow, obj, decl)
+                 base == IF drop = "none" THEN RefObs ELSE Obs(SortedNow, ref.o, decl)
+             IN {c \in Components : now[c] # base[c] \/ Cardinality(now[c]) # 1}
 RefIsFunction == pc = NParsed => \A c \in Components : Cardinality(RefObs[c]) = 1
 \* the invariant of the model of the code as it is: deterministic unless an env value refers to another env key
 Deterministic == (drop = "none" /\ ~HasEnvRef(decl)) => diff = {}
@@ -294,7 +301,7 @@ Spec == Init /\ [][Next]_vars
 Runs == [threads : {1, 16},
          form : {"all", "packages-forward", "packages-reverse", "targets-forward", "targets-reverse"},
          fresh : BOOLEAN]                               \* plz-out deleted before the run or kept from the previous one
-ASSUME Emit => PrintT(<<"NOTE", ToJson([runs |-> Runs, sites |-> Sites, codesorted |-> CodeSorted])>>)
+ASSUME Emit => PrintT(<<"NOTE", ToJson([runs |-> Runs, sites |-> Sites, codesorted |-> CodeSorted, drops |-> Drops \ {"none"}])>>)
 
 \* ---------------------------------------------------------------- case generation
 \* one case per declaration (printed at its first state), one NOTE per parsed state whose observation is not the
